@@ -814,3 +814,13 @@ def c07_m(ctx):
               "self._quantiles[round + 1] = max(1 / max_value, 0.05), max_value >= 1",
               'the adapted quantile is not max(1 / max(estimated ratio, 1), 0.05) stored at the '
               'next round\'s index', fn=sq, node=st[0] if st else sq.node)
+
+
+@obligation('C07-n', 'T1 T8', 'the values a sampler prepares for a batch are supplied to the model '
+            'as node outputs (shared with C03-e)', floor=6,
+            necessary='proposals that are prepared but not written into the loaded net are '
+                      'replaced by prior draws: the population is not drawn from the mixture '
+                      'its weights assume')
+def c07_n(ctx):
+    from .C03 import c03_e
+    c03_e(ctx)
